@@ -269,24 +269,24 @@ add("C20", "exploration",
 # strata added after the first build (seeded-change campaign, DESIGN.md section 8); appended to
 # the text of each check so that the claim names what the check now drives
 ADDED = {
- "C01": "String option grid, Instance given by class name (judged again after lazy resolution), ValidatedTuple over converting members, validated Property traits in declaring class and subclasses, variants derived by cloning (allow_none), and families of differently configured traits of one type judged interleaved in one process; third session: assignment through deferring traits judged by the trait governing the stored attribute, and the ndarray value family (byte order, views, zero-size, subclasses, structured dtypes) over the Array option grid",
- "C02": "shared-object dynamic defaults, first assignment before any read, quiet sets, handlers supplied by mixins / subclasses, a second trait with its own comparison mode, listeners leaving / joining the notifier list during delivery, trait definition objects reused across attributes and classes; third session: several wildcard-resolved names per prefix on base / subclass / late-subclass instances, run-time re-definition (add_trait) under attached handlers of every mechanism, private names with inherited magic-named handlers",
- "C03": "global-manager swaps, live Map mappings, nested compounds with slow members, and the whole sweep repeated on pickled / copied / cloned / re-added CTraits; third session: value-held histories (the sweep on an attribute that holds a value; objects whose isinstance verdict is individual) and enumerations whose items equal values of another exact type",
- "C04": "owners with a false truth value, raw items equal to stored ones, and item traits that are value-dependent refinements of the Base scalar traits (user subclasses, File(exists=True)); third session: declared defaults of every legality class materialised through six routes on sibling owners, some of them collected",
+ "C01": "String option grid, Instance given by class name (judged again after lazy resolution), ValidatedTuple over converting members, validated Property traits in declaring class and subclasses, variants derived by cloning (allow_none), and families of differently configured traits of one type judged interleaved in one process; third session: assignment through deferring traits judged by the trait governing the stored attribute, and the ndarray value family (byte order, views, zero-size, subclasses, structured dtypes) over the Array option grid; converting members two or more trait levels deep with values that need an equal-valued conversion at the inner level",
+ "C02": "shared-object dynamic defaults, first assignment before any read, quiet sets, handlers supplied by mixins / subclasses, a second trait with its own comparison mode, listeners leaving / joining the notifier list during delivery, trait definition objects reused across attributes and classes; third session: several wildcard-resolved names per prefix on base / subclass / late-subclass instances, run-time re-definition (add_trait) under attached handlers of every mechanism, private names with inherited magic-named handlers; handler populations that change during the history (registrations / removals of every mechanism between assignments)",
+ "C03": "global-manager swaps, live Map mappings, nested compounds with slow members, and the whole sweep repeated on pickled / copied / cloned / re-added CTraits; third session: value-held histories (the sweep on an attribute that holds a value; objects whose isinstance verdict is individual) and enumerations whose items equal values of another exact type; class names resolved lazily along nine routes, with the sweep on every trait object made from the definition (stratum forward-ref)",
+ "C04": "owners with a false truth value, raw items equal to stored ones, and item traits that are value-dependent refinements of the Base scalar traits (user subclasses, File(exists=True)); third session: declared defaults of every legality class materialised through six routes on sibling owners, some of them collected; inner classes given by name in every inner position, judged before / at / after the first resolution on early and late owners",
  "C05": "the list itself as the argument, NaN-like items, equal-but-distinct twins of stored items, a non-idempotent validator, unwatched lists and copies continued as the main object, and listeners that change the list they are told about (a mirror registered first rebuilds the contents from events); third session: odd-typed position / count / multiplier arguments (None, floats, rationals, index-protocol objects, numpy scalars, huge ints) at every index and slice component",
  "C06": "notifier-free dicts and copies, raw keys equal to stored keys, a copy-isolation census, and re-entrant listeners (mirror first, reactor second, recorder last); third session: listeners added later through the caller's own notifier list, and duck-typed / registered mapping classes as update and |= arguments",
  "C07": "hostile argument containers, unwatched sets and copies, and re-entrant listeners with the built-in model applying nested operations at the same points",
- "C08": "named dynamic traits, add_trait over observed names, pickle snapshots mid-history, the list form of expressions, containers nested in containers, and in-place routes on container objects held in variables; third session: root replacement at a reused address over shared sub-objects, metadata of every truthiness class, del / reset_traits of observed links and containers",
+ "C08": "named dynamic traits, add_trait over observed names, pickle snapshots mid-history, the list form of expressions, containers nested in containers, and in-place routes on container objects held in variables; third session: root replacement at a reused address over shared sub-objects, metadata of every truthiness class, del / reset_traits of observed links and containers; mutator arguments that alias stored objects (the stored object as pop default, the container itself or its own slices)",
  "C09": "a stale-owner stratum with address reuse, the installed UI handler as part of the history, multi-item events, and re-definition of observed names (add_trait / remove_trait) between registration and removal; third session: gcpoints (a collection enumerated before every statement of one operation, victims: handler owner / observed root), reference cycles through a registration, containers nested in containers with equal-but-new replacements",
- "C10": "metadata-filtered queries, nested-container defaults, sibling transfers and in-place routes taking a sibling's container as argument, value-equality classes, del / reset_traits of stored values; third session: wildcard-resolved names under the isolation and default laws, hooks that fail while a default is materialised",
- "C11": "round trips inside histories, inherited __prefix__, delegate references cleared and set again, re-entrant handlers changing the same target during delivery; third session: delegates with __eq__ swapped for equal-but-distinct candidates, deferring traits re-declared in subclasses / mixins with decoy assignments",
- "C12": "inherited getters, containers on child items, default nested objects, transient lists, construction-time touches, dependencies that are instance traits, shared objects under owner churn with address reuse; third session: dependencies declared with each comparison mode (identical / equal-but-distinct / unequal assignments) and observe paths through another Property",
+ "C10": "metadata-filtered queries, nested-container defaults, sibling transfers and in-place routes taking a sibling's container as argument, value-equality classes, del / reset_traits of stored values; third session: wildcard-resolved names under the isolation and default laws, hooks that fail while a default is materialised; default computations with side effects on their own object",
+ "C11": "round trips inside histories, inherited __prefix__, delegate references cleared and set again, re-entrant handlers changing the same target during delivery; third session: delegates with __eq__ swapped for equal-but-distinct candidates, deferring traits re-declared in subclasses / mixins with decoy assignments; computed delegate references (Property, a reference that is itself deferred, dynamic default)",
+ "C12": "inherited getters, containers on child items, default nested objects, transient lists, construction-time touches, dependencies that are instance traits, shared objects under owner churn with address reuse; third session: dependencies declared with each comparison mode (identical / equal-but-distinct / unequal assignments) and observe paths through another Property; properties declaring several overlapping observe paths over shared holders",
  "C13": "re-entrant trait_added listeners, ReadOnly defined by declaration, one definition object bound to several names / classes, copy round trips of objects carrying instance traits, bookkeeping instance traits; third session: indirect first access to wildcard / default-governed names (delegation in every prefix style, trait_set / constructor, sync_trait, registrations and look-ups)",
- "C14": "a minimal one-feature class family, awkward legal trait names x listener flavours, a lazy-default family (defaults depending on transient state, unread before the copy) and a graph family (trees of nested objects, every clone mode); third session: length-bounded containers in every placement ('silently back at the default' as an outcome) and identity-hashed mutable set members / dict keys compared as labelled object graphs",
- "C15": "what '+name' and '*' select on live classes carrying metadata of every truthiness class, dunder metadata names",
- "C16": "stale containers, equal-but-distinct replacements, doubly registered containers, several owners' bound methods under one name with owners collected mid-history; third session: deferred=True and decorator registrations made before the links are assigned, 1-3 argument legacy signatures, first links set to None with the detached subtree probed",
+ "C14": "a minimal one-feature class family, awkward legal trait names x listener flavours, a lazy-default family (defaults depending on transient state, unread before the copy) and a graph family (trees of nested objects, every clone mode); third session: length-bounded containers in every placement ('silently back at the default' as an outcome) and identity-hashed mutable set members / dict keys compared as labelled object graphs; the copy-mode matrix (per-trait metadata x requested mode) judged by identity one and two levels down",
+ "C15": "what '+name' and '*' select on live classes carrying metadata of every truthiness class, dunder metadata names; the list forms of observe / @observe / Property(observe=...) exercised between two evaluations of each text's denotation",
+ "C16": "stale containers, equal-but-distinct replacements, doubly registered containers, several owners' bound methods under one name with owners collected mid-history; third session: deferred=True and decorator registrations made before the links are assigned, 1-3 argument legacy signatures, first links set to None with the detached subtree probed; node classes whose truth value changes between hooking and detaching",
  "C17": "per-object conditional factories, late ABC registration, manager swaps, the same object re-assigned after the adaptation answer changed, re-entrant factories; third session: trait-route assignments repeated on holders that carry instance-level traits (listeners, removed listeners, add_trait, class-level decorators, subclasses, copies)",
- "C18": "further scenarios (anytrait handlers removing each other, default AttributeError under warning filters, delegates dropped or handed out as temporaries during a delegated access) and chaos actions that drop attribute-held objects; third session: scenarios written from the coverage report (plain Python properties and __class__, instances without __dict__, <name>_items and Python / private names through the raw slot wrappers, documented CTrait setters), finalizers that collect or re-enter the API while the extension tears an object down, and a second refcount table (property getters / setters / validators of every arity incl. failing ones, adapt modes, delegation failures, failing post_setattr, propagating handler exceptions, values whose comparison raises)",
+ "C18": "further scenarios (anytrait handlers removing each other, default AttributeError under warning filters, delegates dropped or handed out as temporaries during a delegated access) and chaos actions that drop attribute-held objects; third session: scenarios written from the coverage report (plain Python properties and __class__, instances without __dict__, <name>_items and Python / private names through the raw slot wrappers, documented CTrait setters), finalizers that collect or re-enter the API while the extension tears an object down, and a second refcount table (property getters / setters / validators of every arity incl. failing ones, adapt modes, delegation failures, failing post_setattr, propagating handler exceptions, values whose comparison raises); delegate-name cycles, callable defaults of original-value traits (Expression, AdaptsTo), and six gcpoints scenarios per shard of C09 / C20 replayed under the sanitizer",
  "C19": "quiet multi-name sets, sync_trait with partner validators, PrototypedFrom forwarding after rejections, and a lifetime stratum comparing what is reclaimed with the failure-free twin; third session: the library's default exception handling in force (nothing pushed) and a catalogue of 100 exception shapes and subclasses",
  "C20": "List traits with default methods / explicit defaults / comparison modes, partner replacement, heterogeneous partners whose narrower traits reject some changes; third session: gcpoints (the partner collected before every statement of an operation, 11 link shapes x 16 operations incl. link and unlink) and run-time re-definition of synchronised attributes",
 }
